@@ -17,6 +17,17 @@ theorem replicate_nil {α} {n : Nat} {a : α} (h : List.replicate n a = []) : n 
 theorem prod_eq_of_fst {α β} {p : α × β} {a : α} (h : p.1 = a) : p = (a, p.2) := by
   cases p; simp_all
 
+theorem sound_ident (Γ : Ctx) (s : Bool) (name : String) (h : (wrap s (identRes Γ name)).errs = []) :
+    HasType Γ s (.ident name) (wrap s (identRes Γ name)).ty (wrap s (identRes Γ name)).ex (wrap s (identRes Γ name)).cst
+      (wrap s (identRes Γ name)).tys := by
+  simp only [identRes] at h ⊢
+  cases hl : Γ.lookup name with
+  | none => simp only [hl] at h; have := (wrap_errs_nil h).1; simp at this
+  | some t =>
+    simp only [hl] at h ⊢
+    obtain ⟨_, hany⟩ := wrap_errs_nil h
+    rw [wrap_of_ok hany]; exact HasType.mk (Raw.ident hl) hany
+
 theorem sound_let (Γ : Ctx) (name : String) (ann : Option PTy) (r : Res) {e : PExpr}
     (ihe : r.errs = [] → HasType Γ false e r.ty r.ex r.cst r.tys)
     (h : (letRule Γ name ann r false).errs = []) :
@@ -165,6 +176,40 @@ theorem sound_expr : (e : PExpr) → ∀ (Γ : Ctx) (s : Bool), (checkExpr Γ s 
       obtain ⟨h1, hany⟩ := wrap_errs_nil h
       rw [wrap_of_ok hany]; exact HasType.mk (Raw.callDiv (ihb h1) hc) hany
     | bad => simp only [hc] at h; have := (wrap_errs_nil h).1; simp at this
+  | .spawn name args, Γ, s => by
+    have iha := sound_sargs args Γ
+    intro h; simp only [checkExpr] at h ⊢
+    cases hc : callee (wrap true (identRes Γ name)).ty with
+    | fn ps ret =>
+      simp only [hc] at h ⊢
+      by_cases hlen : args.length = ps.length
+      · simp only [hlen, bne_self_eq_false, Bool.false_eq_true, ↓reduceIte] at h ⊢
+        obtain ⟨h1, hany⟩ := wrap_errs_nil h
+        simp only [List.append_eq_nil_iff] at h1
+        rw [wrap_of_ok hany]
+        exact HasType.mk (Raw.spawnFn (sound_ident Γ true name h1.1.1) hc (spawnTargetErr_nil h1.2) hlen (iha _ _ h1.1.2)) hany
+      · have : (args.length != ps.length) = true := by simpa using hlen
+        simp only [this, ↓reduceIte] at h
+        have := (wrap_errs_nil h).1; simp at this
+    | var ps rest ret =>
+      simp only [hc] at h ⊢
+      cases hlen : (ps.length != 0 && decide (args.length < ps.length)) with
+      | true => simp only [hlen, ↓reduceIte] at h; have := (wrap_errs_nil h).1; simp at this
+      | false =>
+        simp only [hlen, Bool.false_eq_true, ↓reduceIte] at h ⊢
+        obtain ⟨h1, hany⟩ := wrap_errs_nil h
+        simp only [List.append_eq_nil_iff] at h1
+        rw [wrap_of_ok hany]
+        refine HasType.mk (Raw.spawnVar (sound_ident Γ true name h1.1.1) hc (spawnTargetErr_nil h1.2) ?_ (iha _ _ h1.1.2)) hany
+        simp only [Bool.and_eq_false_imp, bne_iff_ne, ne_eq, decide_eq_false_iff_not, Nat.not_lt] at hlen
+        by_cases h0 : ps.length = 0
+        · exact Or.inl h0
+        · exact Or.inr (hlen h0)
+    | div =>
+      simp only [hc] at h ⊢
+      obtain ⟨h1, hany⟩ := wrap_errs_nil h
+      rw [wrap_of_ok hany]; exact HasType.mk (Raw.spawnDiv (sound_ident Γ true name h1) hc) hany
+    | bad => simp only [hc] at h; have := (wrap_errs_nil h).1; simp at this
   | .index b i, Γ, s => by
     have ihb := sound_expr b Γ true
     have ihi := sound_expr i Γ true
@@ -311,6 +356,24 @@ theorem sound_args : (as : PExprs) → ∀ (Γ : Ctx) (ps : List Ty) (rest : Opt
       simp only [hk, Bool.false_eq_true, ↓reduceIte] at hown ⊢
       simp only [hown, List.isEmpty_nil, ↓reduceIte]
       exact ArgsOK.cons (iha ha) (by simpa using hk) (tcErr_nil hown) (ihr _ _ hr)
+theorem sound_sargs : (as : PExprs) → ∀ (Γ : Ctx) (ps : List Ty) (rest : Option Ty), (checkSpawnArgs Γ ps rest as).errs = [] →
+    SpawnArgsOK Γ ps rest as (checkSpawnArgs Γ ps rest as).ex (checkSpawnArgs Γ ps rest as).tys
+  | .nil, Γ, ps, rest => by intro _; simp only [checkSpawnArgs]; exact SpawnArgsOK.nil
+  | .cons a as, Γ, ps, rest => by
+    have iha := sound_expr a Γ true
+    have ihr := sound_sargs as Γ
+    intro h; simp only [checkSpawnArgs] at h ⊢
+    simp only [List.append_eq_nil_iff] at h
+    obtain ⟨⟨ha, hown⟩, hr⟩ := h
+    cases hk : ((checkExpr Γ true a).ty.kind == Kind.null) with
+    | true => simp [hk] at hown
+    | false =>
+      cases hf : ((checkExpr Γ true a).ty.kind == Kind.fn) with
+      | true => simp [hk, hf] at hown
+      | false =>
+        simp only [hk, hf, Bool.false_eq_true, ↓reduceIte] at hown ⊢
+        simp only [hown, List.isEmpty_nil, ↓reduceIte]
+        exact SpawnArgsOK.cons (iha ha) (by simpa using hk) (by simpa using hf) (tcErr_nil hown) (ihr _ _ hr)
 theorem sound_arms : (arms : PArms) → ∀ (Γ : Ctx) (ctl : Ty) (st : MSt), st.hadErr = false →
     (checkArms Γ ctl st arms).errs = [] →
     (checkArms Γ ctl st arms).st.hadErr = false ∧
